@@ -266,14 +266,35 @@ def run_evaluate(ctx: Ctx) -> None:
         return True, ""
     _guard(ctx, "T3.grid-size", "grid", fG, "control point grid placement", thg)
     # subdivision
-    for cshape, dims in (((5,), (0,)), ((4, 5), None), ((4, 5), (0,)), ((4, 5), (1,)), ((4, 4, 4), (2,))):
-        def ths(cshape=cshape, dims=dims):
+    # (coefficient shape, selected spatial dims (x = 0) or None for all, how the selection is spelled)
+    sub_cases = [((5,), (0,), "tuple"), ((4, 5), None, "omitted"), ((4, 5), (0,), "tuple"), ((4, 5), (1,), "tuple"), ((4, 4, 4), (2,), "tuple"),
+                 ((4, 5), (0,), "int"), ((4, 5), (0,), "enum"), ((4, 5), (0,), "str"), ((4, 5), (1,), "int"), ((4, 5), (1,), "enum"),
+                 ((4, 5), (), "empty list"), ((4, 5), (0, 1), "list reversed"), ((4, 4, 4), (0,), "int"), ((4, 4, 4), (0, 2), "enum list")]
+    SD = prog.cls("deepali.core.enum", "SpatialDim")
+    for cshape, dims, form in sub_cases:
+        def ths(cshape=cshape, dims=dims, form=form):
             reset_relations()
             fresh_facts()
             it = make_interp(ctx)
             D = len(cshape)
             c = STensor.symbols("c", [1, 1] + ([1] if D == 1 else []) + list(cshape))  # subdivide needs (N, C, ..., X) with >= 4 dims
-            kw = {} if dims is None else {"dims": dims}
+            names = "XYZ"
+            if form == "omitted":
+                kw = {}
+            elif form == "tuple":
+                kw = {"dims": dims}
+            elif form == "int":
+                kw = {"dims": dims[0]}
+            elif form == "enum":
+                kw = {"dims": it.enum(SD, names[dims[0]])}
+            elif form == "str":
+                kw = {"dims": names[dims[0]].lower()}
+            elif form == "empty list":
+                kw = {"dims": []}
+            elif form == "list reversed":
+                kw = {"dims": list(reversed(dims))}
+            else:
+                kw = {"dims": [it.enum(SD, names[d]) for d in dims]}
             r = it.call(fS, c, **kw)
             cs = list(c.shape[2:])
             DD = len(cs)
@@ -307,7 +328,7 @@ def run_evaluate(ctx: Ctx) -> None:
             if not teq(r, cur):
                 return False, "refined coefficients differ from the two-scale relation ([1/8, 3/4, 1/8] even, [1/2, 1/2] odd; zero outside)"
             return True, ""
-        _guard(ctx, "T3.subdivide", f"c={cshape}:dims={dims}", fS, f"subdivide coefficients={cshape} dims={dims}", ths)
+        _guard(ctx, "T3.subdivide", f"c={cshape}:dims={dims}:{form}", fS, f"subdivide coefficients={cshape} dims={dims} given as {form}", ths)
     # function invariance in the interior (where the zero boundary of the masks does not enter)
     def thf():
         reset_relations()
